@@ -32,6 +32,7 @@ type Result struct {
 	Vacuity   bool     `json:"vacuity,omitempty"`
 	Bounded   bool     `json:"bounded,omitempty"`
 	Location  string   `json:"contract"`
+	Thorough  bool     `json:"-"` // item of the thorough tier
 	BudgetMs  int64    `json:"-"` // solver budget of this obligation (item option timeout=<seconds>); 0 = default
 }
 
@@ -43,7 +44,7 @@ type runCfg struct {
 
 // RunHarness generates and discharges the obligation of one harness.
 func RunHarness(p *Program, h *Harness, cfg runCfg) (res *Result) {
-	res = &Result{Oblig: h.Oblig, Props: h.Item.Props, Kind: h.Item.Kind, Location: fmt.Sprintf("%s:%d", h.Item.File, h.Item.Line), Vacuity: h.Vacuity}
+	res = &Result{Oblig: h.Oblig, Props: h.Item.Props, Kind: h.Item.Kind, Location: fmt.Sprintf("%s:%d", h.Item.File, h.Item.Line), Vacuity: h.Vacuity, Thorough: h.Item.Options["tier"] == "thorough"}
 	start := time.Now()
 	defer func() {
 		if r := recover(); r != nil {
@@ -63,6 +64,9 @@ func RunHarness(p *Program, h *Harness, cfg runCfg) (res *Result) {
 	c.Reindex = h.Item.Logical && os.Getenv("GOVC_NOREINDEX") == ""
 	x := NewExec(c, p)
 	x.h = h
+	if n, err := strconv.Atoi(h.Item.Options["steps"]); err == nil && n > 0 {
+		x.maxSteps = n // option steps=N: symbolic execution budget of a large item
+	}
 	if h.Item.Options["frame"] == "off" {
 		x.frameOff = true
 	}
@@ -129,9 +133,20 @@ func RunHarness(p *Program, h *Harness, cfg runCfg) (res *Result) {
 			if o.val.IsTrue() {
 				continue
 			}
+			if h.Item.Logical && o.val.Op == "and" && len(o.val.Args) > 1 {
+				// a conjunction is checked conjunct by conjunct (separate goals when the query is split)
+				for k, g := range o.val.Args {
+					negGoals = append(negGoals, c.And(pc, c.Not(g)))
+					labels = append(labels, fmt.Sprintf("postcondition false [conjunct %d]", k))
+				}
+				continue
+			}
 			negGoals = append(negGoals, c.And(pc, c.Not(o.val)))
 			labels = append(labels, "postcondition false")
 		case OPanic:
+			if h.Secondary && !o.st.specPhase {
+				continue // a panic inside the function under contract: reported by the primary harness
+			}
 			negGoals = append(negGoals, pc)
 			labels = append(labels, "panic: "+c.Show(o.val))
 		case ODiverge:
@@ -142,6 +157,11 @@ func RunHarness(p *Program, h *Harness, cfg runCfg) (res *Result) {
 		}
 	}
 	for _, so := range x.side {
+		if h.Secondary && so.Body {
+			// raised by the execution of the function under contract, identical for every clause of the item:
+			// checked by the item's first clause (its primary harness) only
+			continue
+		}
 		pc := c.And(so.PC...)
 		negGoals = append(negGoals, c.And(pc, c.Not(so.Goal)))
 		labels = append(labels, so.Name+" "+so.Note)
@@ -165,6 +185,16 @@ func RunHarness(p *Program, h *Harness, cfg runCfg) (res *Result) {
 			}
 			res.BudgetMs = int64(t) * 1000
 		}
+	}
+	if os.Getenv("GOVC_EMIT") != "" {
+		// development aid: write one query per goal into the scratch directory and stop
+		for i := range negGoals {
+			qi := c.Query(nil, []*Term{negGoals[i]}, []string{labels[i]})
+			os.WriteFile(filepath.Join(cfg.scratch, fmt.Sprintf("%s.part%03d.smt2", sanitizeFile(h.Oblig), i)), []byte(qi), 0o644)
+		}
+		res.Status = "undecided"
+		res.Reason = fmt.Sprintf("GOVC_EMIT: %d goals written", len(negGoals))
+		return
 	}
 	sr := Solve(q, cfg.scratch, h.Oblig, cfg.timeout)
 	if sr.Status == "unknown" && len(negGoals) > 1 {
@@ -340,7 +370,7 @@ func main() {
 		os.Exit(2)
 	}
 	timeout := 10 * time.Second
-	if *tier == "thorough" {
+	if *tier == "thorough" || *tier == "manual" {
 		timeout = 60 * time.Second
 	}
 	cfg := runCfg{scratch: *scratch, timeout: timeout, verbose: *verbose}
@@ -358,6 +388,16 @@ func main() {
 		wg.Add(1)
 		go func(i int, h *Harness) {
 			defer wg.Done()
+			if h.Item != nil && h.Item.Options["tier"] == "manual" && *tier != "manual" {
+				// development items: never part of a quick or thorough run
+				results[i] = &Result{Oblig: h.Oblig, Props: h.Item.Props, Kind: h.Item.Kind, Status: "deferred", Reason: "item is marked tier=manual (attempted, not proved; see the contract file)", Location: fmt.Sprintf("%s:%d", h.Item.File, h.Item.Line), Vacuity: h.Vacuity}
+				return
+			}
+			if *tier == "quick" && h.Item != nil && h.Item.Options["tier"] == "thorough" {
+				// the contract author placed this item in the thorough tier (slow proof): not attempted in a quick run
+				results[i] = &Result{Oblig: h.Oblig, Props: h.Item.Props, Kind: h.Item.Kind, Status: "deferred", Reason: "item is in the thorough tier (option tier=thorough)", Location: fmt.Sprintf("%s:%d", h.Item.File, h.Item.Line), Vacuity: h.Vacuity}
+				return
+			}
 			sem <- struct{}{}
 			defer func() { <-sem }()
 			results[i] = RunHarness(p, h, cfg)
